@@ -12,6 +12,10 @@
   'bound':'pool of 3 / 4 slots; the width/stretch arithmetic of justify is cut (R13) and replaced by an arbitrary choice of the line end slots; positionSlots and the justification passes are stubs that leave the links alone',
   'claims':'Segment::justify returns with first/last restored and the line the same well-formed chain in the same order, whether or not the segment had to be reversed for the duration of the call'}@*/
 
+/*@unit {'name':'c19_position_slots', 'props':['C19'], 'entry':'h_position', 'kind':'bounded', 'defines_quick':['NSLOTS=3','POSSLOTS'], 'defines_thorough':['NSLOTS=4','POSSLOTS'], 'unwind_quick':6, 'unwind_thorough':7,
+  'bound':'pool of 3 / 4 slots; Slot::finalise is a stub that returns an arbitrary position and leaves the links alone',
+  'claims':'Segment::positionSlots, as justify calls it (range ends NULL or any two slots of the stream in either order, any direction flags, with or without the temporary reversal), returns without dereferencing a NULL link and leaves the stream a well-formed chain with the same number of slots and first/last on its ends'}@*/
+
 /*@include slots.tc@*/
 
 static bool Slot_sibling_1(Slot *self, Slot *ap);
@@ -28,6 +32,20 @@ static int8 Segment_getSlotBidiClass(const Segment *self, Slot *s) { (void)self;
 /*@extract {'file':'src/Segment.cpp', 'sig': r'void Segment::reverseSlots\(\)', 'emit':'void Segment_reverseSlots(Segment *self)',
    'subs':[[r'getSlotBidiClass\(', 'Segment_getSlotBidiClass(self, ', 0]],
    'methods':['next','prev'], 'self':['m_dir','m_first','m_last']}@*/
+
+#ifdef POSSLOTS
+typedef struct Font Font;
+typedef struct Rect { Position bl, tr; } Rect;
+float nondet_float(void);
+/* stub for Slot::finalise (position arithmetic on floats, C08 territory): arbitrary result, no link is written */
+static Position Slot_finalise_stub(Slot *s) { (void)s; Position p; p.x = nondet_float(); p.y = nondet_float(); return p; }
+#define M_finalise_8(s, seg, font, cp, bb, al, cm, rtl, fin) Slot_finalise_stub(s)
+/*@extract {'file':'src/Segment.cpp', 'sig': r'Position Segment::positionSlots\(const Font \*font, Slot \* iStart, Slot \* iEnd, bool isRtl, bool isFinal\)',
+   'emit':'Position Segment_positionSlots(Segment *self, const Font *font, Slot *iStart, Slot *iEnd, bool isRtl, bool isFinal)',
+   'subs':[[r'Position currpos\(0\., 0\.\);', 'Position currpos = POS0;', 0], [r'currdir\(\)', 'Segment_currdir_0(self)', 0], [r'reverseSlots\(\)', 'Segment_reverseSlots(self)', 0],
+           [r'\bthis\b', 'self', 0]],
+   'methods':['finalise','isBase','prev','next'], 'self':['m_first','m_last']}@*/
+#endif
 
 #if defined(LINEEND) || defined(JUSTIFY)
 static Slot *g_free[2]; static int g_nfree;
@@ -75,7 +93,7 @@ Slot *g_pFirst, *g_pLast, *g_end;
 /* ------------------------------------------------------------------ harnesses */
 bool nondet_bool(void); unsigned nondet_unsigned(void);
 
-#if !defined(LINEEND) && !defined(JUSTIFY)
+#if !defined(LINEEND) && !defined(JUSTIFY) && !defined(POSSLOTS)
 void h_linebreak(void)
 {
     havoc_links();
@@ -150,6 +168,27 @@ void h_justify(void)
     __CPROVER_assert(wf_list(sg.m_first, sg.m_last, o1, &n1) && n1 == n0, "after justify the line is still a well-formed chain with the same number of slots");
     for (int k = 0; k < NSLOTS; ++k) if (k < n0) __CPROVER_assert(o1[k] == o0[k], "after justify the slots are in the same order");
     __CPROVER_assert(sg.m_dir == dir0, "justify leaves the direction flags as they were");
+    CANARY();
+}
+#endif
+
+#ifdef POSSLOTS
+void h_position(void)
+{
+    havoc_links();
+    Segment sg; sg.m_first = pick_slot(); sg.m_last = pick_slot(); sg.m_silf = 0; sg.m_face = 0;
+    sg.m_dir = (int8)nondet_unsigned();
+    int o0[NSLOTS], n0, o1[NSLOTS], n1;
+    __CPROVER_assume(wf_list(sg.m_first, sg.m_last, o0, &n0));
+    /* justify passes the line's first slot and pLast / last(): slots of the stream, not necessarily in stream order
+       (after gr_slot_linebreak_before last() lies on another line), or NULL */
+    Slot *a = pick_slot(), *b = pick_slot();
+    __CPROVER_assume(a == (Slot *)0 || in_order(o0, n0, IDX(a)));
+    __CPROVER_assume(b == (Slot *)0 || in_order(o0, n0, IDX(b)));
+    bool rtl = nondet_bool(), fin = nondet_bool();
+    Position r = Segment_positionSlots(&sg, (const Font *)0, a, b, rtl, fin);
+    (void)r;
+    __CPROVER_assert(wf_list(sg.m_first, sg.m_last, o1, &n1) && n1 == n0, "after positionSlots the stream is still a well-formed chain with the same number of slots");
     CANARY();
 }
 #endif
